@@ -13,6 +13,7 @@ rounds.  SCRAM's cryptography is not modelled (the mechanism is an arbitrary sou
 import KafkaVerif.Model.Auth
 import KafkaVerif.Model.AuthPlainGen
 import KafkaVerif.Spec.SaslPlain
+import KafkaVerif.Gen.MuxFacts
 
 namespace KV.C18
 open KV KV.Auth KV.Spec.Sasl
@@ -289,6 +290,95 @@ theorem other_only_when_ready (c : Cfg) (es : List Env) (s : State) (h : run c e
   | ready => rfl
   | _ => exact absurd (h3 (by rw [hp]; simp) (.other k) hk) (by simp [Wire.isAuth])
 
+/-! ## 2b. Set-up leaves the connection balanced: when connect hands the connection out, every request written during
+set-up has had its answer consumed.  This is the premise under which the C06 models start a connection
+(`ConnMux.init`, `TransportConn.Event.new`: nothing written that is not answered, no response bytes outstanding);
+there it was an assumption ("set-up exchanges abstracted"), here it is a theorem about the set-up model. -/
+
+/-- the environment event is a response read off the wire -/
+def isAnswer : Env → Bool
+  | .versions _ _ _ => true
+  | .reply _ _ _ => true
+  | _ => false
+
+/-- requests of the set-up exchange in a journal (ApiVersions, SaslHandshake, tokens) -/
+def setupWrites (l : List Item) : Nat :=
+  l.countP (fun i => match i with | .wrote w => w.isAuth | .verdict => false)
+
+/-- responses the client is waiting for in a phase -/
+def outstanding : Phase → Nat
+  | .awaitVersions => 1
+  | .awaitHandshake _ _ => 1
+  | .awaitAuth _ _ => 1
+  | _ => 0
+
+def actWrites (a : Act) : Nat :=
+  match a.write with
+  | some w => if w.isAuth then 1 else 0
+  | none => 0
+
+theorem react_balance {c : Cfg} {ph : Phase} {e : Env} {a : Act} (h : react c ph e = some a)
+    (hn : a.next ≠ .failed) :
+    outstanding ph + actWrites a = outstanding a.next + (if isAnswer e then 1 else 0) := by
+  react_cases h <;> simp_all [outstanding, actWrites, isAnswer, authWire_isAuth] <;> simp [Wire.isAuth]
+
+theorem setupWrites_apply (s : State) (a : Act) : setupWrites (s.apply a).log = setupWrites s.log + actWrites a := by
+  unfold State.apply setupWrites actWrites
+  cases a.write <;> cases a.verdict <;> simp [List.countP_append, List.countP_cons, List.countP_nil]
+
+/-- balance invariant along a script, `n` answers consumed so far -/
+theorem balance_run (c : Cfg) : ∀ (es : List Env) (s s' : State) (n : Nat),
+    (s.phase ≠ .failed → setupWrites s.log = n + outstanding s.phase) →
+    runFrom c s es = some s' → s'.phase ≠ .failed →
+    setupWrites s'.log = n + es.countP isAnswer + outstanding s'.phase := by
+  intro es
+  induction es with
+  | nil => intro s s' n hb h hf; simp [runFrom] at h; subst h; simpa using hb hf
+  | cons e es ih =>
+    intro s s' n hb h hf
+    simp only [runFrom] at h
+    split at h
+    · exact absurd h (by simp)
+    · next s1 h1 =>
+      have key : s1.phase ≠ .failed →
+          setupWrites s1.log = (n + (if isAnswer e then 1 else 0)) + outstanding s1.phase := by
+        intro hf1
+        unfold step at h1
+        cases hr : react c s.phase e with
+        | none => simp [hr] at h1
+        | some a =>
+          simp [hr] at h1; subst h1
+          have hsf : s.phase ≠ .failed := by
+            intro hsf; rw [hsf, react_failed] at hr; exact absurd hr (by simp)
+          have hb' := hb hsf
+          have hbal := react_balance hr (by simpa [State.apply] using hf1)
+          rw [setupWrites_apply]
+          simp only [State.apply] at hf1 ⊢
+          omega
+      have := ih s1 s' _ key h hf
+      rw [this, List.countP_cons]
+      split <;> simp_all <;> omega
+
+theorem start_balanced (c : Cfg) :
+    (start c).phase ≠ .failed → setupWrites (start c).log = 0 + outstanding (start c).phase := by
+  unfold start
+  cases c.path <;> cases c.sasl <;> (try cases c.addrOk) <;> simp [setupWrites, outstanding, Wire.isAuth]
+
+/-- **setup_is_balanced** — a connection handed out by `Dialer.connect` / `connGroup.connect` has consumed exactly one
+answer per set-up request it wrote: no response to a set-up request is outstanding, none was consumed twice -/
+theorem setup_is_balanced (c : Cfg) (es : List Env) (s : State) (h : run c es = some s) (hr : s.phase = .ready) :
+    setupWrites s.log = es.countP isAnswer := by
+  have := balance_run c es (start c) s 0 (start_balanced c) h (by simp [hr])
+  simpa [hr, outstanding] using this
+
+/-- while the set-up is in progress at most one answer is outstanding: set-up requests are never pipelined (so an answer
+cannot be attributed to a later set-up request) -/
+theorem setup_never_pipelines (c : Cfg) (es : List Env) (s : State) (h : run c es = some s) (hf : s.phase ≠ .failed) :
+    setupWrites s.log = es.countP isAnswer + outstanding s.phase ∧ outstanding s.phase ≤ 1 := by
+  have := balance_run c es (start c) s 0 (start_balanced c) h hf
+  have ho : outstanding s.phase ≤ 1 := by unfold outstanding; split <;> simp
+  exact ⟨by omega, ho⟩
+
 /-! ## 3. Any failure makes the dial fail and closes the connection -/
 
 /-- rejected mechanism / error code in any answer, a failing mechanism step, the broker closing the
@@ -513,5 +603,224 @@ theorem raw_follows_handshake_v0 (p : Path) (au : Option (Int × Int)) (tok : By
     (run { path := p, sasl := true } [.versions 0 (some (0, 0)) au, .reply 0 [] false, .mechStart (some tok)]).map
       (fun s => s.log.getLast?) = some (some (.wrote (.rawToken tok))) := by
   cases p <;> simp [run, runFrom, start, step, react, negotiateConn, selectTransport, authWire, State.apply]
+
+/-- structural facts re-read from the source on every run (`go/extract/muxfacts`, shapes not spellings):
+`(*Conn).saslAuthenticate` negotiates on the HANDSHAKE api key and `saslauthenticate.(*Request).Required` looks at
+`versions[SaslHandshake]` (what `authWire` / `framing_follows_handshake` model); `connGroup.connect` closes the
+dialled socket through its deferred guard unless the conn was handed out (`failWith` sets `closed`). -/
+theorem auth_structural_facts_hold :
+    Gen.MuxFacts.connAuthFramingByHandshake = true ∧ Gen.MuxFacts.transportAuthFramingByHandshake = true ∧
+    Gen.MuxFacts.transportConnectClosesUnlessHandedOut = true := by decide
+
+/-! ## SCRAM adaptor: `completed` is the conversation's verdict on THIS challenge
+
+`mechSound` (the mechanism completes only on a validated final answer) was assumed for SCRAM.  It is now reduced to
+the contract of the dependency: `ConvSound cv V` — the conversation is done without error after a step only if the
+challenge it was just given verifies (`V`, e.g. "is a server-final whose signature matches").  The adaptor adds nothing
+to that and takes nothing away: -/
+
+def ConvSound {σ : Type} (cv : Conv σ) (V : σ → Bytes → Prop) : Prop :=
+  ∀ s ch, (cv.step s ch).2.2 = false → cv.done (cv.step s ch).1 = true → V s ch
+
+/-- the adaptor reports `completed` for a challenge only if the conversation verified that very challenge -/
+theorem scram_completed_only_if_verified {σ : Type} (cv : Conv σ) (V : σ → Bytes → Prop) (hc : ConvSound cv V)
+    (s : σ) (ch out : Bytes) (h : (scramNext cv s ch).2 = some (true, out)) : V s ch := by
+  unfold scramNext at h
+  cases hf : (cv.step s ch).2.2 with
+  | true => simp [hf] at h
+  | false =>
+    simp [hf] at h
+    exact hc s ch hf h.1
+
+/-- a step the conversation refuses (e.g. a forged server signature) is a failing `Next`: the dial fails (with
+`failure_closes`: error result, connection closed, nothing written afterwards) -/
+theorem scram_refusal_fails_the_dial {σ : Type} (cv : Conv σ) (s : σ) (ch : Bytes) (hf : (cv.step s ch).2.2 = true)
+    (c : Cfg) (v av : Nat) :
+    (scramNext cv s ch).2 = none ∧
+      (react c (.awaitNext v av) (.mechNext ((scramNext cv s ch).2))).map (·.next) = some .failed := by
+  unfold scramNext
+  simp [hf, react, failWith]
+
+/-- the adaptor as written in sasl/scram/scram.go is `scramStart` / `scramNext` (facts re-extracted this run) -/
+theorem scram_adaptor_extracted :
+    Gen.scramNextCompletedIsDoneAfterStep = true ∧ Gen.scramNextReturnsStepError = true ∧
+    Gen.scramNextReturnsStepOutput = true ∧ Gen.scramNextStepsOnChallenge = true ∧
+    Gen.scramStartReturnsStepError = true ∧ Gen.scramStartStepsOnEmpty = true := by decide
+
+/-! ## the control flow of the two `authenticateSASL` functions, re-extracted by symbolic execution
+
+`go/extract/saslplain/authflow.go` runs both functions symbolically over scenarios of call outcomes (handshake,
+`Mechanism.Start`, authenticate, `StateMachine.Next`: ok / EOF / other error, completed or not) — following if /
+switch / for / return and the conditions on `err`, `errors.Is(err, io.EOF)` and `completed`, whatever the spelling —
+and writes, per scenario, the calls made in order and the value returned (`Gen.dialerAuthFlow`,
+`Gen.transportAuthFlow`).  `modelFlow` computes the same from Model/Auth.lean (`react`), and the theorem says the
+extracted tables ARE the model's behaviour. -/
+
+def envOfToken : String → Option Env
+  | "hs:ok" => some (.reply 0 [] false)
+  | "hs:err" => some (.reply 33 [] false)
+  | "hs:eof" => some .eof
+  | "start:ok" => some (.mechStart (some [1]))
+  | "start:err" => some (.mechStart none)
+  | "auth:ok" => some (.reply 0 [] false)
+  | "auth:eof" => some .eof
+  | "auth:err" => some .ioerr
+  | "next:more" => some (.mechNext (some (false, [2])))
+  | "next:done" => some (.mechNext (some (true, [])))
+  | "next:err" => some (.mechNext none)
+  | "next:errdone" => some (.mechNext none)      -- an error from Next wins over its `completed` result
+  | _ => none
+
+def roleOfPhase : Phase → String
+  | .awaitHandshake _ _ => "hs"
+  | .awaitStart _ _ => "start"
+  | .awaitAuth _ _ => "auth"
+  | .awaitNext _ _ => "next"
+  | _ => "?"
+
+/-- the calls the model makes (one per environment answer it consumes) and what the function returns; the
+broker advertises SaslHandshake 0..0, so the exchange is un-framed and EOF maps to SASLAuthenticationFailed on
+both paths -/
+def modelFlowFrom (c : Cfg) : State → List String → List String → List String × String
+  | s, [], acc =>
+    (acc.reverse, match s.phase, s.result with
+      | .ready, _ => "nil"
+      | .failed, some (.kafka 58) => "SASLAuthenticationFailed"
+      | .failed, _ => "err"
+      | _, _ => "pending")
+  | s, t :: ts, acc =>
+    match envOfToken t with
+    | none => (acc.reverse, "bad-token")
+    | some e =>
+      match step c s e with
+      | none => (acc.reverse, "rejected")
+      | some s' => modelFlowFrom c s' ts (roleOfPhase s.phase :: acc)
+
+def modelFlow (p : Path) (tokens : List String) : List String × String :=
+  let c : Cfg := { path := p, sasl := true }
+  match step c (start c) (.versions 0 (some (0, 0)) none) with
+  | some s => modelFlowFrom c s tokens []
+  | none => ([], "rejected")
+
+/-- the extracted control flow of `(*Dialer).authenticateSASL` and of transport.go `authenticateSASL` is the
+model's, scenario by scenario (11 scenarios each: every failure position, one to three rounds) -/
+theorem auth_control_flow_extracted :
+    Gen.dialerAuthFlow.all (fun (sc, calls, ret) => modelFlow .dialer sc == (calls, ret)) = true ∧
+    Gen.transportAuthFlow.all (fun (sc, calls, ret) => modelFlow .transport sc == (calls, ret)) = true := by
+  decide
+
+/-! ## every way out of the two `connect` functions, re-extracted by symbolic execution
+
+`Gen.MuxFacts.dialerConnectFlow` / `transportConnectFlow` (go/extract/muxfacts/symflow.go): for every combination
+of "dial failed / ApiVersions round trip failed / error code in it / SASL configured / host:port unusable /
+authentication failed" the calls made in order, whether the connection is closed (`close`, or the deferred guard
+registered and not cleared) and what is returned.  `*ConnectModelRow` computes the same row from Model/Auth.lean:
+the scenario becomes a configuration and an answer script, and the row is read off the state `run` ends in. -/
+
+def cflag (sc : List String) (p : String) : Bool := sc.contains (p ++ "=true")
+
+def okScript : List Env :=
+  [.versions 0 (some (0, 1)) (some (0, 1)), .reply 0 [] false, .mechStart (some [1]), .reply 0 [] true, .mechNext (some (true, []))]
+
+def wroteHandshake (s : State) : Bool :=
+  s.log.any fun i => match i with | .wrote (.saslHandshake _) => true | _ => false
+
+def dialerConnectModelRow (sc : List String) : List String :=
+  if cflag sc "dialFailed" then ["dial", "return:error"]
+  else
+    let sasl := cflag sc "sasl"
+    let c : Cfg := { path := .dialer, sasl := sasl, addrOk := !(cflag sc "splitFailed") }
+    let script : List Env :=
+      if !sasl || !c.addrOk then []
+      else if cflag sc "authFailed" then [.versions 0 (some (0, 1)) (some (0, 1)), .reply 33 [] false] else okScript
+    match run c script with
+    | none => ["model: script rejected"]
+    | some s =>
+      ["dial", "wrap"] ++ (if sasl then ["split"] else []) ++ (if !s.log.isEmpty then ["auth"] else []) ++
+      (if s.closed then ["close"] else []) ++ [if s.phase == .ready then "return:conn" else "return:error"]
+
+def transportConnectModelRow (sc : List String) : List String :=
+  if cflag sc "dialFailed" then ["dial", "return:error"]
+  else
+    let sasl := cflag sc "sasl"
+    let c : Cfg := { path := .transport, sasl := sasl, addrOk := !(cflag sc "splitFailed") }
+    let versions : List Env :=
+      if cflag sc "apiVersionsFailed" then [.ioerr]
+      else if cflag sc "versionsErrorCode" then [.versions 35 (some (0, 1)) (some (0, 1))]
+      else [.versions 0 (some (0, 1)) (some (0, 1))]
+    match run c versions with
+    | none => ["model: script rejected"]
+    | some s1 =>
+      -- the ApiVersions answer itself was good (the model also fails at this event when host:port is unusable)
+      let versionsOk := s1.phase != .failed || (sasl && !c.addrOk && !(cflag sc "apiVersionsFailed") && !(cflag sc "versionsErrorCode"))
+      let rest : List Env :=
+        if !versionsOk || !sasl || !c.addrOk then []
+        else if cflag sc "authFailed" then [.reply 33 [] false] else okScript.drop 1
+      match runFrom c s1 rest with
+      | none => ["model: script rejected"]
+      | some s =>
+        ["dial", "defer:closeUnlessCleared", "apiVersions"] ++ (if versionsOk then ["setVersions"] else []) ++
+        (if versionsOk && sasl then ["split"] else []) ++ (if wroteHandshake s then ["auth"] else []) ++
+        -- the guard is cleared (and the run loop started) exactly when the model does not close the connection
+        (if s.closed then [] else ["startRun", "clearGuard"]) ++
+        [if s.phase == .ready then "return:conn" else "return:error"]
+
+/-- the extracted exit structure of `(*Dialer).connect` and `(*connGroup).connect` is the model's: same calls,
+closed on exactly the same paths, a connection returned exactly when the model reaches `ready` -/
+theorem connect_flows_are_the_model :
+    Gen.MuxFacts.dialerConnectFlow.all (fun (sc, eff) => dialerConnectModelRow sc == eff) = true ∧
+    Gen.MuxFacts.transportConnectFlow.all (fun (sc, eff) => transportConnectModelRow sc == eff) = true := by
+  decide
+
+/-! ## raw versus framed: the two places that decide it, re-extracted -/
+
+def isRawWire : Wire → Bool
+  | .rawToken _ => true
+  | _ => false
+
+/-- `(*Conn).saslAuthenticate`: what is negotiated, which exchange is used (from `authWire`), and how the un-framed
+exchange ends on each failure — including the negative length rejected since C18-D30 -/
+def connSaslAuthenticateModelRow (sc : List String) : List String :=
+  let neg := "negotiate:saslHandshake"          -- the HANDSHAKE key: `negotiateVersion(saslHandshake, v0, v1)`
+  if cflag sc "negotiateFailed" then [neg, "return:error"]
+  else if !isRawWire (authWire (if cflag sc "handshakeWasV1" then 1 else 0) 0 []) then [neg, "framedExchange", "return:data,err"]
+  else
+    [neg, "rawLength", "rawWrite"] ++
+    (if cflag sc "writeFailed" then ["return:error"]
+     else ["rawFlush"] ++
+      (if cflag sc "flushFailed" then ["return:error"]
+       else ["rawReadLength"] ++
+        (if cflag sc "lengthReadFailed" || cflag sc "negativeLength" then ["return:error"]
+         else ["rawReadBody", "return:data,err"])))
+
+/-- `protocol.(*Conn).RoundTrip`: a fresh id, then the raw exchange exactly for a message that is a RawExchanger
+and says it is required (`Required` = "the handshake went out as v0", fact `transportAuthFramingByHandshake`) -/
+def protocolConnRoundTripModelRow (sc : List String) : List String :=
+  ["nextId"] ++ (if cflag sc "isPrepared" then ["prepare"] else []) ++
+  [if cflag sc "isRawExchanger" && isRawWire (authWire (if cflag sc "rawRequired" then 0 else 1) 0 []) then "rawExchange"
+   else "framedRoundTrip"]
+
+/-- the three small wrappers around one exchange: a transport failure is passed on, an error code in a well-formed
+answer becomes a `kafka.Error` (`react`'s `failWith (.kafka err)`), otherwise the exchange succeeded -/
+def wrapperModelRow (ph : Phase) (pre : List String) (sc : List String) : List String :=
+  if cflag sc "negotiateFailed" then pre ++ ["return"]
+  else
+    let e : Env := if cflag sc "exchangeFailed" then .ioerr else if cflag sc "errorCodeInAnswer" then .reply 33 [] false else .reply 0 [] false
+    match react { path := .dialer, sasl := true } ph e with
+    | none => ["model: event not enabled"]
+    | some a =>
+      pre ++ ["exchange"] ++ (match a.err with | some (.kafka _) => ["kafkaError"] | _ => []) ++ ["return"]
+
+theorem wrapper_flows_are_the_model :
+    Gen.MuxFacts.connSaslHandshakeFlow.all
+      (fun (sc, eff) => wrapperModelRow (.awaitHandshake 1 0) ["negotiate:saslHandshake"] sc == eff) = true ∧
+    Gen.MuxFacts.saslHandshakeRoundTripFlow.all (fun (sc, eff) => wrapperModelRow (.awaitHandshake 1 0) [] sc == eff) = true ∧
+    Gen.MuxFacts.saslAuthenticateRoundTripFlow.all (fun (sc, eff) => wrapperModelRow (.awaitAuth 1 0) [] sc == eff) = true := by
+  decide
+
+theorem framing_flows_are_the_model :
+    Gen.MuxFacts.connSaslAuthenticateFlow.all (fun (sc, eff) => connSaslAuthenticateModelRow sc == eff) = true ∧
+    Gen.MuxFacts.protocolConnRoundTripFlow.all (fun (sc, eff) => protocolConnRoundTripModelRow sc == eff) = true := by
+  decide
 
 end KV.C18
